@@ -192,3 +192,42 @@ class G:
         for n in range(k + 1):
             for t in itertools.product(alpha, repeat=n):
                 yield list(t)
+
+
+# ---------------------------------------------------------------- canonical LR(0) collection (reference)
+
+def lr0_closure(g, kernel):
+    items = set(kernel)
+    work = list(kernel)
+    while work:
+        (r, d) = work.pop()
+        rhs = g.rules[r][1]
+        if d < len(rhs) and not g.is_t(rhs[d]):
+            for r2 in g.by_lhs.get(rhs[d], []):
+                if (r2, 0) not in items:
+                    items.add((r2, 0))
+                    work.append((r2, 0))
+    return frozenset(items)
+
+
+def lr0_collection(g, cap=2100):
+    """returns (list of item sets, dict (index, symbol) -> index); state 0 first"""
+    s0 = lr0_closure(g, [(0, 0)])
+    states = [s0]
+    index = {s0: 0}
+    trans = {}
+    i = 0
+    while i < len(states) and len(states) < cap:
+        by_sym = {}
+        for (r, d) in states[i]:
+            rhs = g.rules[r][1]
+            if d < len(rhs):
+                by_sym.setdefault(rhs[d], []).append((r, d + 1))
+        for x, k in by_sym.items():
+            t = lr0_closure(g, k)
+            if t not in index:
+                index[t] = len(states)
+                states.append(t)
+            trans[(i, x)] = index[t]
+        i += 1
+    return states, trans
